@@ -1,5 +1,5 @@
-//! Trace validation of the real multi-threaded BFS / DFS checkers against the product model
-//! lean/SR/Checker/Full.lean (job market × checker machine): runs `spawn_bfs` / `spawn_dfs` with 2-4 threads on
+//! Trace validation of the real multi-threaded BFS / DFS / on-demand checkers against the product model
+//! lean/SR/Checker/Full.lean (job market × checker machine): runs `spawn_bfs` / `spawn_dfs` / `spawn_on_demand` + `run_to_completion` with 2-4 threads on
 //! explicit graphs of a few thousand states with the trace hooks of src/verif.rs switched on, translates
 //! fingerprints to state numbers and emits
 //!   M  tv <bfs|dfs> <k> <graph> <props> <cfg> (<w> <kind> <a> <b>)*     expected: what the checker reported
@@ -80,8 +80,14 @@ fn run(c: &Case) -> Result<(Vec<verif::TraceEntry>, String), String> {
             // the trace ends with the last worker's Drop; the checker object's own handle is dropped afterwards
             let tr = verif::trace_stop();
             (tr, summary(&ch))
-        } else {
+        } else if strat == "dfs" {
             let ch = b.spawn_dfs().join();
+            let tr = verif::trace_stop();
+            (tr, summary(&ch))
+        } else {
+            let ch = b.spawn_on_demand();
+            ch.run_to_completion();
+            let ch = ch.join();
             let tr = verif::trace_stop();
             (tr, summary(&ch))
         }
@@ -97,14 +103,22 @@ fn run(c: &Case) -> Result<(Vec<verif::TraceEntry>, String), String> {
 }
 
 fn summary<C: Checker<GraphModel>>(c: &C) -> String {
-    let mut names: Vec<usize> =
-        c.discoveries().keys().map(|n| NAMES.iter().position(|x| x == n).unwrap_or(99)).collect();
-    names.sort();
+    // every discovery with the PATH the checker returns for it (bfs / on-demand: rebuilt from the parent map by
+    // `reconstruct_path`; dfs: from the stored fingerprint vector) — the model replays the same inserts in the same order
+    let mut discs: Vec<(usize, String)> = c
+        .discoveries()
+        .into_iter()
+        .map(|(n, p)| {
+            let states: Vec<String> = p.into_states().iter().map(|s| s.to_string()).collect();
+            (NAMES.iter().position(|x| *x == n).unwrap_or(99), format!("({})", states.join(" ")))
+        })
+        .collect();
+    discs.sort();
     format!(
         "ok (uniq {}) (count {}) (disc ({})) (pending 0) (busy 0) (exited t)",
         c.unique_state_count(),
         c.state_count(),
-        names.iter().map(|x| x.to_string()).collect::<Vec<_>>().join(" ")
+        discs.iter().map(|(i, p)| format!("({} {})", i, p)).collect::<Vec<_>>().join(" ")
     )
 }
 
@@ -139,7 +153,7 @@ fn main() {
         }
         let c = Case {
             g,
-            strat: if r.chance(1, 2) { "bfs" } else { "dfs" },
+            strat: *r.pick(&["bfs", "dfs", "ondemand"]),
             k: 2 + r.below(3),
             finish: *r.pick(&["all", "all", "any", "anyf", "allf"]),
             max_depth: if r.chance(1, 5) { Some(6 + r.below(30)) } else { None },
@@ -152,6 +166,7 @@ fn main() {
                 let mut evs = String::new();
                 let mut bad = None;
                 let (mut parks, mut wakes, mut splits, mut pieces, mut stops) = (0u64, 0u64, 0u64, 0u64, [0u64; 5]);
+                let (mut blocks, mut early_block_ends, mut dropped_drained) = (0u64, 0u64, 0u64);
                 for (w, kind, a, b) in &trace {
                     let w = if *w == u64::MAX { EXTERNAL } else { *w };
                     let a2 = match *kind {
@@ -170,6 +185,8 @@ fn main() {
                         verif::TR_SPLIT => splits += 1,
                         verif::TR_SPLIT_PIECE => pieces += 1,
                         verif::TR_STOP => stops[(*a as usize).min(4)] += 1,
+                        verif::TR_BLOCK => blocks += 1,
+                        verif::TR_BLOCK_END => { early_block_ends += 1; dropped_drained += *a; }
                         _ => {}
                     }
                     evs.push_str(&format!(" ({} {} {} {})", w, kind, a2, b));
@@ -190,6 +207,9 @@ fn main() {
                 out.stat_n("tv-stop-finish-when", stops[1]);
                 out.stat_n("tv-stop-market-shut-down", stops[3]);
                 out.stat_n("tv-stop-pop-empty", stops[4]);
+                out.stat_n("tv-ondemand-blocks", blocks);
+                out.stat_n("tv-ondemand-blocks-returning-early", early_block_ends);
+                out.stat_n("tv-ondemand-drained-jobs-dropped", dropped_drained);
                 if c.max_depth.is_some() { out.stat("tv-with-depth-limit"); }
                 if c.perturb != 0 { out.stat("tv-with-perturbation"); }
                 out.stat(&format!("tv-props-{}", c.g.props.len()));
